@@ -5,6 +5,14 @@ V = os.path.dirname(os.path.dirname(os.path.abspath(__file__)))
 props = [json.loads(l) for l in open(os.path.join(V, 'properties.jsonl'))]
 
 CHECKS = {
+ 'C15': dict(level='model_checking', design='3/C15',
+   text='Stratified sample of TLC-enumerated scenarios (Outcome.tla universe incl. -R, rename, mode change, rollback after failure); every workspace gets a cp -al twin and bystander files; after the push (1-3 threads, both loaders) the twin must be identical in bytes, mode, inode and mtime, every changed file must be a fresh inode and un-named files untouched; a share of the runs is traced with strace and the open/unlink events replayed into a model of the directory (an existing working-tree name may never be opened for writing).',
+   note='Trusted: TLC, snapshotter, strace decoding (unfinished/resumed lines are merged). Inode freshness is only judged against the surviving hard link.',
+   technique='TLC-enumerated scenarios replayed into the binary with hard-linked twins + strace event replay into a directory model'),
+ 'C19': dict(level='model_checking', design='3/C19',
+   text='Names.tla models path components, -pN stripping and the refusal rule; TLC enumerates every (old name, new name, strip, header position) combination with its verdict; each is run inside a sentinel directory with decoys at every escape target: nothing outside the workspace may change, unsafe names must be refused with exit 1 and nothing recorded, safe names applied; a share of the runs is traced with strace (every write-class path must resolve under the workspace).',
+   note='Trusted: TLC, snapshotter, strace decoding. Absolute names with strip>0 and names stripped to nothing get the safety oracle only.',
+   technique='TLA+ model of name stripping (Names.tla) enumerated exhaustively by TLC, replayed into the binary inside a sentinel directory'),
  'C10': dict(level='model_checking', design='3/C10',
    text='The reference Outcome for dry configurations (tree unchanged, nothing recorded, same exit status and failing patch as the real configuration) is computed by TLC for every enumerated scenario; real --dry-run runs (1-3 threads, all backup modes) must leave the recursive snapshot incl. inode, mtime and directory entries unchanged, exit and name the failing patch as the reference and as a real run on the same workspace do; every 12th run is traced with strace on the binary and may show no write-class system call.',
    note='Trusted: TLC, snapshotter, strace decoding.',
